@@ -1531,10 +1531,10 @@ impl DecodedPixelData<'_> {
 
                         let lut: Lut<T> = match (voi_lut, self.window()?) {
                             (VoiLutOption::Default | VoiLutOption::Identity, _) => {
-                                Lut::new_rescale(8, signed, rescale)
+                                Lut::new_rescale(self.bits_stored, signed, rescale)
                             }
                             (VoiLutOption::First, Some(window)) => Lut::new_rescale_and_window(
-                                8,
+                                self.bits_stored,
                                 signed,
                                 rescale,
                                 WindowLevelTransform::new(
@@ -1557,10 +1557,10 @@ impl DecodedPixelData<'_> {
                             ),
                             (VoiLutOption::First, None) => {
                                 tracing::warn!("Could not find window level for object");
-                                Lut::new_rescale(8, signed, rescale)
+                                Lut::new_rescale(self.bits_stored, signed, rescale)
                             }
                             (VoiLutOption::Custom(window), _) => Lut::new_rescale_and_window(
-                                8,
+                                self.bits_stored,
                                 signed,
                                 rescale,
                                 WindowLevelTransform::new(
@@ -1579,14 +1579,14 @@ impl DecodedPixelData<'_> {
                             ),
                             (VoiLutOption::CustomWithFunction(window, function), _) => {
                                 Lut::new_rescale_and_window(
-                                    8,
+                                    self.bits_stored,
                                     signed,
                                     rescale,
                                     WindowLevelTransform::new(*function, *window),
                                 )
                             }
                             (VoiLutOption::Normalize, _) => Lut::new_rescale_and_normalize(
-                                8,
+                                self.bits_stored,
                                 signed,
                                 rescale,
                                 data.iter().copied(),
